@@ -525,7 +525,22 @@ def check_resort(prog, r):
                     if any("RibEntry" in tt["f"].get("ga", "") for _, tt in cfv.calls(RESORT)):
                         sorts.append(-1)
                 after = fv.reach_after(bi)
-                if any(s in after or s == -1 for s in sorts):
+                # per destination: from the write, the next iteration of the loop over destinations (or the return) must not be
+                # reachable without passing a re-sort of this destination's list
+                real_sorts = [s_ for s_ in sorts if s_ != -1]
+                skipped = None
+                from ..util import loops as _loops
+                outer = [(h, body) for h, body, backs in _loops(fv) if bi in body and any(s_ in body for s_ in real_sorts)]
+                if outer and real_sorts:
+                    h, body = max(outer, key=lambda x: len(x[1]))
+                    # an inner loop that contains the write itself is crossed freely; only the outer head counts
+                    reach_wo_sort = fv.reach_after(bi, real_sorts)
+                    if h in reach_wo_sort or any(x in reach_wo_sort for x in fv.returns()):
+                        skipped = h
+                if skipped is not None:
+                    r.fail(fv.name, "resort-skipped:%s" % wname, "after %s the destination's entry list can be left unsorted: a path from the write reaches the next destination (or the return) "
+                           "without passing the re-sort — the stale flag changes the order of this source's entries whether or not they are filtered" % wname, fv.loc(bi))
+                elif any(s in after or s == -1 for s in sorts):
                     r.ok("%s: %s followed by re-sort" % (short(fv.name), wname))
                 elif wname == "clear_llgr_stale" and _clears_on_reestablish(prog, fv):
                     r.ok("%s: %s (no entry of this source remains LLGR-stale-ranked)" % (short(fv.name), wname))
